@@ -11,6 +11,8 @@ import (
 	"fmt"
 	"io"
 	"os"
+	"runtime"
+	"runtime/debug"
 	"sort"
 	"strings"
 	"sync"
@@ -28,16 +30,25 @@ import (
 )
 
 var stats = evid.New("C16", "rapid: (1) TestPropHistory - a universe of 1..14 hierarchical keys over components {a,ab,a-b,a.b,b,A}, depth 1..4, "+
-	"no key a directory-ancestor of another; a population phase (exclusive Put of the first p keys) then 5..40 operations (Put overwrite/exclusive through WriterTo or plain Reader sources, Get, GetAt, GetAttr, Has, "+
+	"no key a directory-ancestor of another; a population phase (exclusive Put of the first p keys) then 5..40 (thorough tier: 5..100) operations (Put overwrite/exclusive through WriterTo or plain Reader sources, Get, GetAt, GetAttr, Has, "+
 	"Has on a directory name, Delete present/absent, Touch, Keys, KeysPrefix paginated to exhaustion with delimiter in {\"\",\"/\"} and page size in 1..8 or 1000 "+
 	"or every page size 1..n+1, abandoned pagination) against a map model on a real OS directory under /dev/shm; prefixes: empty, directory with/without "+
 	"trailing slash, full key, key+\"/\", partial component, missing (parent present / parent missing). (2) TestPropExclusive - 2..8 goroutines Put(exclusive) "+
 	"the same key with pairwise different bytes (optionally pre-existing key, sibling writers, WithLock). Non-trivial: a history with a listing whose prefix "+
 	"(minus trailing slash) is a proper string prefix of a stored key that is not under prefix+\"/\" (sibling component), or a listing after a delete; a "+
-	"concurrent round with >=2 writers. Distinct by (op kinds, set of listing classes (prefix class, delimiter, page-size class, sibling, after-delete), lock) "+
+	"concurrent round with >=2 writers. Distinct by (lock, op mix = which of {refused exclusive put, overwrite, delete present, delete absent, abandoned pagination} occurred, set of classes of the non-trivial listings: (prefix class, delimiter, page-size class) for sibling-component prefixes, prefix class for listings after a delete) "+
 	"resp. (writers, pre-existing, lock, size class, siblings).")
 
 func TestMain(m *testing.M) {
+	// Many short-lived goroutines and small allocations: with one P per core and the default GC pace the
+	// run time is dominated by GC/preemption hand-shakes when the machine is oversubscribed (16 shards,
+	// race detector).  Four Ps keep the concurrent writers truly parallel.
+	if os.Getenv("GOMAXPROCS") == "" && runtime.NumCPU() > 4 {
+		runtime.GOMAXPROCS(4)
+	}
+	if os.Getenv("GOGC") == "" {
+		debug.SetGCPercent(1000)
+	}
 	code := m.Run()
 	stats.Flush()
 	os.Exit(code)
@@ -208,7 +219,11 @@ func drawCase(t *rapid.T) caseT {
 	for i := 0; i < populate; i++ {
 		c.Ops = append(c.Ops, opT{Kind: "putx", Key: i, Seed: uint64(i) + 1, Size: 3 + i, Src: "writerto"})
 	}
-	nops := rapid.IntRange(5, 40).Draw(t, "nops")
+	maxOps := 40
+	if hx.Thorough() {
+		maxOps = 100
+	}
+	nops := rapid.IntRange(5, maxOps).Draw(t, "nops")
 	for i := 0; i < nops; i++ {
 		op := opT{Kind: rapid.SampledFrom(opKinds).Draw(t, "op")}
 		switch op.Kind {
@@ -310,10 +325,6 @@ type listClass struct {
 	CountClass  string
 	Sibling     bool
 	AfterDelete bool
-}
-
-func (l listClass) String() string {
-	return fmt.Sprintf("%s|d=%v|n=%s|sib=%v|del=%v", l.PClass, l.Delim, l.CountClass, l.Sibling, l.AfterDelete)
 }
 
 type result struct {
@@ -670,7 +681,14 @@ func (e *executor) list(op opT, abandon bool) error {
 	if len(want) > e.res.maxListed {
 		e.res.maxListed = len(want)
 	}
-	e.res.lists[cl.String()] = true
+	// class signature of the history: the classes of its non-trivial listings (sibling-component prefixes in
+	// full, listings after a delete by prefix class only)
+	if cl.Sibling {
+		e.res.lists[fmt.Sprintf("sib:%s|d=%v|n=%s", cl.PClass, cl.Delim, cl.CountClass)] = true
+	}
+	if cl.AfterDelete {
+		e.res.lists["del:"+cl.PClass] = true
+	}
 	if cl.Sibling || cl.AfterDelete {
 		e.res.nontriv = true
 	}
@@ -704,16 +722,18 @@ func (e *executor) final() error {
 }
 
 func (r *result) sig(c caseT) string {
-	var ks, ls []string
-	for k := range r.kinds {
-		ks = append(ks, k)
-	}
+	var ls []string
 	for l := range r.lists {
 		ls = append(ls, l)
 	}
-	sort.Strings(ks)
 	sort.Strings(ls)
-	return fmt.Sprintf("lock=%v ops=%s lists=%s", c.Lock, strings.Join(ks, ","), strings.Join(ls, ";"))
+	mix := ""
+	for _, k := range []string{"putx_present", "put_overwrite", "delete_present", "delete_absent", "abandoned"} {
+		if r.counters[k] > 0 {
+			mix += k + ","
+		}
+	}
+	return fmt.Sprintf("lock=%v mix=%s lists=%s", c.Lock, mix, strings.Join(ls, ";"))
 }
 
 func js(v interface{}) string {
